@@ -15,14 +15,12 @@ property they target; {sib} by a sibling check where the change needs what only
 the sibling has - a transport fault or cut (C16), a second overlapping
 connection (C19), cancellation (C20), retained results (C17), a reset
 differential (C18), a pong (C08), an RSV1 rule of the message state (C13)),
-{no} not caught ({', '.join(sorted(nos))}). Three of them by design:
+{no} not caught, by design ({', '.join(sorted(nos))}):
 C16-m32 is `ws.ReadHeader` answering `io.EOF` for a cut inside a header with
 no message open, which only has to be an error; C06-m69 makes a zero-length
 copy followed by Flush send nothing, which is not demanded; C05-m65 wraps a
 protocol error with %w, which errors.As and errors.Is - the way the checks
-classify errors - still recognise. One is a gap left open when the session
-ended (wave 20): C16-m78 needs a five-step history with a failing extension
-before a failing destination (its meta.json spells it out). Waves 5-9 asked for
+classify errors - still recognise. Waves 5-9 asked for
 refactorings, option combinations, transport or scheduling conditions, broken
 doc-comment guarantees, cleanup/resource slips, arithmetic and boundary slips,
 ordering of side effects, option-field defaults and sibling entry points that
